@@ -583,8 +583,6 @@ package genetics
 // Organism or a Species, which is all this contract needs of them.
 //@ func (*Genome).mutateLinkWeights
 //@   reason effect derived from the body (modification analysis); no functional claim
-//@ func (*Genome).mutateAddLink
-//@   reason effect derived from the body (modification analysis); no functional claim
 //@ func (*Genome).mutateConnectSensors
 //@   reason effect derived from the body (modification analysis); no functional claim
 //@ func (*Genome).mutateAllNonstructural
@@ -654,7 +652,7 @@ package genetics
 //@   props C10 C02
 //@   mode nosafety
 //@   abstracts select
-//@   assume_pre duplicate, mutateAddNode, mateMultipoint, mateMultipointAvg, mateSinglePoint, compatibility, Int31n
+//@   assume_pre duplicate, mutateAddNode, mutateAddLink, mateMultipoint, mateMultipointAvg, mateSinglePoint, compatibility, Int31n
 //@   requires s != nil && pop != nil && len(s.Organisms) > 0 && (forall i :: 0 <= i && i < len(s.Organisms) ==> s.Organisms[i] != nil && s.Organisms[i].Genotype != nil)
 //@   requires [quotaCoversSuperChamp] 0 <= s.Organisms[0].superChampOffspring && s.Organisms[0].superChampOffspring <= s.ExpectedOffspring
 //@   requires neat.ErrNEATOptionsNotFound != nil
@@ -703,3 +701,77 @@ package genetics
 //@     invariant [todo] forall i :: #idx < i && i < len(s.Organisms) ==> s.Organisms[i].Fitness == old(s.Organisms[i].Fitness)
 //@   loop 2:
 //@     invariant true
+
+// ---- C05: add-link ------------------------------------------------------------------------------------
+// Helpers enter with the effect derived from their bodies.
+// Genesis builds the phenotype out of freshly allocated nodes and links: of the objects that existed before, only the nodes'
+// PhenotypeAnalogue pointers and the genome's Phenotype pointer change (needs every gene endpoint to be one of the genome's
+// node OBJECTS, so that the analogue it dereferences is the node made a moment ago). Non-modular genomes.
+//@ pred endpointsInNodes(g *Genome) = forall i :: 0 <= i && i < len(g.Genes) ==> (exists a :: 0 <= a && a < len(g.Nodes) && g.Nodes[a] == g.Genes[i].Link.InNode) && (exists b :: 0 <= b && b < len(g.Nodes) && g.Nodes[b] == g.Genes[i].Link.OutNode)
+//@ pred analogueFresh(n *network.NNode) = n.PhenotypeAnalogue != nil && fresh(n.PhenotypeAnalogue) && fresh(n.PhenotypeAnalogue.Incoming) && fresh(n.PhenotypeAnalogue.Outgoing)
+//@ pred oldLinksKept() = (forall x *network.Link :: wasAllocated(x) ==> x.InNode == old(x.InNode) && x.OutNode == old(x.OutNode) && x.IsRecurrent == old(x.IsRecurrent) && x.ConnectionWeight == old(x.ConnectionWeight) && x.Trait == old(x.Trait) && sameSlice(x.Params, old(x.Params))) && (forall b :: wasAllocated(b) ==> Mem[float64][b] == old(Mem[float64][b]))
+//@ pred oldNodesKept() = (forall b :: wasAllocated(b) ==> Mem[*network.NNode][b] == old(Mem[*network.NNode][b])) && (forall b :: wasAllocated(b) ==> Mem[*network.Link][b] == old(Mem[*network.Link][b])) && (forall x *network.NNode :: wasAllocated(x) ==> sameSlice(x.Incoming, old(x.Incoming)) && sameSlice(x.Outgoing, old(x.Outgoing)))
+//@ func (*Genome).Genesis
+//@   props C11 C05
+//@   mode nosafety
+//@   assume_pre NewNNodeCopy, NewNetwork, NewModularNetwork, NewLinkWithTrait
+//@   requires g != nil && nonNilNodes(g.Nodes) && nonNilGenes(g.Genes) && geneLinksWF(g.Genes) && endpointsInNodes(g) && len(g.ControlGenes) == 0
+//@   modifies network.NNode.PhenotypeAnalogue, network.NNode.Incoming, network.NNode.Outgoing, Genome.Phenotype, Mem[*network.NNode], Mem[*network.Link]
+//@   assert [ends] analogueFresh(curLink.InNode) && analogueFresh(curLink.OutNode) @ before 1 NewLinkWithTrait
+//@   ensures [oldObjectsKept] oldNodesKept()
+//@   ensures [analogues] result1 == nil ==> (forall i :: 0 <= i && i < len(g.Nodes) ==> analogueFresh(g.Nodes[i]) && g.Nodes[i].PhenotypeAnalogue.Id == g.Nodes[i].Id && g.Nodes[i].PhenotypeAnalogue.NeuronType == g.Nodes[i].NeuronType && g.Nodes[i].PhenotypeAnalogue.ActivationType == g.Nodes[i].ActivationType)
+//@   ensures [phenotype] result1 == nil ==> result0 != nil && g.Phenotype == result0
+//@   ensures [nonEmpty] result1 == nil ==> len(g.Nodes) > 0 && len(g.Genes) > 0
+//@   loop 1:
+//@     invariant -1 <= #idx && #idx < len(g.Nodes) && fresh(inList) && fresh(outList) && fresh(allList) && len(outList) <= #idx + 1
+//@     invariant [nodesKept] oldNodesKept()
+//@     invariant [pa] forall i :: 0 <= i && i <= #idx ==> analogueFresh(g.Nodes[i]) && g.Nodes[i].PhenotypeAnalogue.Id == g.Nodes[i].Id && g.Nodes[i].PhenotypeAnalogue.NeuronType == g.Nodes[i].NeuronType && g.Nodes[i].PhenotypeAnalogue.ActivationType == g.Nodes[i].ActivationType
+//@   loop 2:
+//@     invariant -1 <= #idx && fresh(inList) && fresh(outList) && fresh(allList) && len(g.Nodes) > 0
+//@     invariant [nodesKept] oldNodesKept()
+//@     invariant [linksKept] oldLinksKept()
+//@     invariant [pa] forall i :: 0 <= i && i < len(g.Nodes) ==> analogueFresh(g.Nodes[i]) && g.Nodes[i].PhenotypeAnalogue.Id == g.Nodes[i].Id && g.Nodes[i].PhenotypeAnalogue.NeuronType == g.Nodes[i].NeuronType && g.Nodes[i].PhenotypeAnalogue.ActivationType == g.Nodes[i].ActivationType
+//@   loop 3:
+//@     invariant false
+//@   loop 4:
+//@     invariant false
+//@   loop 5:
+//@     invariant false
+//@ func (*network.Network).IsRecurrent
+//@   props C05
+//@   mode nosafety
+//@   modifies Box[int]
+//@   loop 1:
+//@     invariant true
+//@ func (*Genome).haveGene
+//@   reason effect derived from the body (modification analysis); no functional claim
+//@ pred sensorNode(n *network.NNode) = n.NeuronType == network.InputNeuron || n.NeuronType == network.BiasNeuron
+//@ pred linkIs(gn *Gene, a *network.NNode, b *network.NNode, rec bool) = gn.Link.InNode.Id == a.Id && gn.Link.OutNode.Id == b.Id && gn.Link.IsRecurrent == rec
+//@ func (*Genome).mutateAddLink
+//@   props C05
+//@   mode nosafety
+//@   assume_pre Intn
+//@   requires genomeShape(g) && !isNilIface(innovations) && opts != nil
+//@   requires [nonModular] endpointsInNodes(g) && len(g.ControlGenes) == 0
+//@   ensures [oneGene] result0 && result1 == nil ==> len(g.Genes) == old(len(g.Genes)) + 1
+//@   ensures [noop] !result0 ==> sameSlice(g.Genes, old(g.Genes)) && unchanged(g.Genes)
+//@   ensures [nodesKept] sameSlice(g.Nodes, old(g.Nodes)) && unchanged(g.Nodes)
+//@   ensures [oldGenesKept] forall i :: 0 <= i && i < old(len(g.Genes)) ==> old(g.Genes[i]) == g.Genes[i] || (i + 1 < len(g.Genes) && old(g.Genes[i]) == g.Genes[i+1])
+//@   ensures_local [notIntoSensor] result0 ==> node1 != nil && node2 != nil && !sensorNode(node2)
+//@   ensures_local [noDuplicate] result0 ==> (forall i :: 0 <= i && i < old(len(g.Genes)) ==> !linkIs(old(g.Genes[i]), node1, node2, doRecur))
+//@   loop 1:
+//@     invariant -1 <= #idx && 0 <= firstNonSensor && nodesLen == len(g.Nodes) && nodesLen > 0
+//@   loop 2:
+//@     invariant sameSlice(g.Genes, old(g.Genes)) && unchanged(g.Genes) && sameSlice(g.Nodes, old(g.Nodes)) && unchanged(g.Nodes) && nonNilGenes(g.Genes) && geneLinksWF(g.Genes) && nonNilNodes(g.Nodes)
+//@     invariant [found] found ==> tryCount >= opts.NewLinkTries && node1 != nil && node2 != nil && !sensorNode(node2) && (forall i :: 0 <= i && i < len(g.Genes) ==> !linkIs(g.Genes[i], node1, node2, doRecur))
+//@     invariant [frames] (forall x *Gene :: wasAllocated(x) ==> x.Link == old(x.Link)) && (forall x *network.Link :: wasAllocated(x) ==> x.InNode == old(x.InNode) && x.OutNode == old(x.OutNode) && x.IsRecurrent == old(x.IsRecurrent)) && (forall x *network.NNode :: wasAllocated(x) ==> x.Id == old(x.Id) && x.NeuronType == old(x.NeuronType))
+//@   loop 3:
+//@     invariant 0 <= nodeNum1 && nodeNum1 < nodesLen && 0 <= nodeNum2 && nodeNum2 < nodesLen
+//@   loop 4:
+//@     invariant 0 <= nodeNum1 && nodeNum1 < nodesLen && 0 <= nodeNum2 && nodeNum2 < nodesLen
+//@   loop 5:
+//@     invariant -1 <= #idx && !linkExists && !sensorNode(node2) && node1 != nil && node2 != nil
+//@     invariant forall i :: 0 <= i && i <= #idx ==> !linkIs(g.Genes[i], node1, node2, doRecur)
+//@     leave [scanned] !linkExists ==> (forall i :: 0 <= i && i < len(g.Genes) ==> !linkIs(g.Genes[i], node1, node2, doRecur))
+//@   loop 6:
+//@     invariant -1 <= #idx
